@@ -17,8 +17,9 @@ def parseMap (s : String) : Option PMap :=
       pure (k, vs)
     | _ => none
 
-def mapPairs (m : PMap) : List (List Nat × List Nat) :=
-  m.flatMap fun (k, vs) => vs.map fun v => (k, v)
+/-- the oracle's map: keys in first-appearance order, each with all its once-decoded values -/
+def specMap (pairs : List (List Nat × List Nat)) : PMap :=
+  (pairs.map (·.1)).eraseDups.map fun k => (k, valuesOf pairs k)
 
 def step (_ : Unit) (line : String) : Unit × String :=
   let out :=
@@ -28,44 +29,37 @@ def step (_ : Unit) (line : String) : Unit × String :=
       match bytesOfHex h with
       | some bs =>
         let e := escape bs
-        let v := if unescape e == some bs then "ok" else "fail escape-unescape"
+        let v := if unescape e == bs then "ok" else "fail escape-unescape"
         s!"{hexOfBytes e} ## {v}"
       | none => "bad-op"
     | ["unescape", h] =>
       match bytesOfHex h with
-      | some bs =>
-        match unescape bs with
-        | some r => s!"ok {hexOfBytes r}"
-        | none => "panic"
+      | some bs => s!"ok {hexOfBytes (unescape bs)}"
       | none => "bad-op"
     | ["query", h] =>
       match bytesOfHex h with
       | some target =>
         let q := rawQuery target
-        let spec := searchParamsSpec q
-        match searchParams q with
-        | some m =>
-          let v := if m == spec then "ok" else "fail double-decode"
-          s!"ok {showMap m} ## {v}"
-        | none => "panic ## fail panic-second-decode"
+        let m := searchParams q
+        let v := if m == specMap (formParse q) then "ok" else "fail not-once"
+        s!"ok {showMap m} ## {v}"
       | none => "bad-op"
     | ["pathparam", h] =>
       match bytesOfHex h with
       | some seg =>
-        match pathParam seg with
-        | some r => s!"ok {hexOfBytes r} ## ok"
-        | none => "panic ## fail panic-path-param"
+        let r := pathParam seg
+        -- a single decode; bytes that are not UTF-8 are replaced, never a panic
+        let v := if r == utf8Lossy (pctDecode seg) then "ok" else "fail not-once"
+        s!"ok {hexOfBytes r} ## {v}"
       | none => "bad-op"
     | ["roundtrip", ms] =>
       match parseMap ms with
       | some m =>
         let qs := toQueryString m
         -- the leading '?' is what `to_query_string` returns; a request target is "/p" ++ qs
-        match searchParams (qs.drop 1) with
-        | some m' =>
-          let v := if m' == m then "ok" else "fail roundtrip-pct-triple"
-          s!"{hexOfBytes qs} {showMap m'} ## {v}"
-        | none => s!"{hexOfBytes qs} panic ## fail roundtrip-panic"
+        let m' := searchParams (qs.drop 1)
+        let v := if m' == m then "ok" else "fail roundtrip"
+        s!"{hexOfBytes qs} {showMap m'} ## {v}"
       | none => "bad-op"
     | _ => "bad-op"
   ((), out)
